@@ -172,6 +172,12 @@ func explore(t *testing.T) {
 		c.Engine = eng.Name()
 		c.Seed = seed
 		c.Tier = tier
+		if dump := os.Getenv("SIM_DUMP_CASE"); dump != "" {
+			// written before the case runs: if it kills the process the driver still has its inputs
+			if cb, err := json.MarshalIndent(c, "", " "); err == nil {
+				os.WriteFile(dump, cb, 0o644)
+			}
+		}
 		t0 := time.Now()
 		v := execute(t, eng, c)
 		if v.Extra == nil {
